@@ -7,37 +7,38 @@ ENTRY = {'coq_dir': 'C07',
  'thorough_streams': [('quic', '{V}/tools/c07_quic_stream.sh {seed} 1200 3')],
  'stream_timeout': 1500,
  'consts': ['CONN_EXIT_SITES', 'WS_EXIT_SITES', 'QUIC_EXIT_SITES', 'WEBRTC_EXIT_SITES', 'C07_SKEL_STATEMENTS'],
- 'rule': 'five streams from one seed. (v) LOOP LEVEL, one case per 5 report-level cases (300 in a quick run), TCP twice as often as WebSocket: the '
-         'real `TcpConnection::start` / `WebSocketConnection::start` future over a loopback socket, built by the production constructors from a real '
-         'ProtocolSet (1-4 protocols, optional fallback names, channels of capacity 1-16 owned by the harness, some receivers dropped before '
-         'accept), is never spawned but POLLED BY HAND (under catch_unwind) against a bare yamux peer; script of 2-10 operations: a protocol opens a '
-         'substream through its real ConnectionHandle (remote accepts / refuses / resets / stalls until the timeout / never answers), the remote '
-         'opens a substream under a main, fallback, unadvertised or unknown name (negotiates / stalls / never answers), force-close, a protocol '
-         "drops its handle, a protocol's receiver is dropped, the manager's receiver is dropped, the remote closes (yamux close or socket close), "
-         'RACES: any subset of {a holder force-closes, the remote closes the socket, every handle is dropped, an inbound substream arrives} happens '
-         "before the loop is polled again, so several select! branches are ready and the exit arm is the scheduler's choice (the model lists the "
-         'arms that can win; the observed one must be among them and every one of them reports), any of them with one protocol channel full '
-         '(observed before the channel is drained: has the task finished, has the manager been told); one case in four with a substream-open timeout '
-         'that is never reached, so unanswered negotiations stay pending while the connection is closed around them; after every operation (loop '
-         'polled until nothing is outstanding) compared with coq/C07/Loop.v: return code, events per protocol, manager notices, how start() returned '
-         '(running / Ok / Err / panicked) and the exit arm the real loop took (read from its debug log; the messages are extracted from the source, '
-         'harness/src/gen_c07_msgs.rs). (iv) report-level names: report_connection_established then protocol_codec under every name the set offers '
-         'for negotiation (no panic), report_substream_open under main / fallback / unknown names. (iii) back-pressure, one case per 3 report-level '
-         'cases: 1-4 protocols with real mpsc channels of capacity 1-3 that are drained only when the case says so, up to 6 connections = real '
-         'ProtocolSets whose reports (established / substream-open failure / closed) run as tasks that wait for room; accept, loop events, protocol '
-         'receives k events, protocol exits; after every operation the completed reports, the manager channel, the received events, queue lengths '
-         'and the phase of every connection are compared with the model coq/C07/Block.v (over coq/Ts/Report.v). (i) report level, one case per '
-         '--cases: 2-10 operations on the real ProtocolSet built the way TransportHandle::protocol_set builds it (1-5 protocols): kill a protocol '
-         'receiver / the manager receiver, report_connection_established, report_connection_closed, report_substream_open_failure, and '
-         'report_connection_closed with one protocol channel full (is the manager told before the protocols are served?); after every operation the '
-         'result and everything that arrived on every channel are compared with the extracted model. (ii) end to end, one scenario per 12 (quick) / '
-         '15 (thorough) report-level cases, 24 in parallel: two real nodes over loopback TCP or (one in three) WebSocket through a cuttable proxy, '
-         'each with 1-3 common user protocols, one user protocol only it has, a notification and a request-response protocol; fault script of 1-9 '
-         'steps: a protocol exits / a handle is dropped (before or after connect, or during the handshake: either order is accepted), connect, open '
-         'a substream (also for a protocol that has exited on the other side, also unsupported by the other side, also open-and-exit-at-once), '
-         'force-close, cut the link, idle expiry (keep-alive 1 s), shut the remote node down, re-connect, dial a dead node; after every step '
-         '(settled: first event, then 200 ms of quiet) the new events of every observer (application and every user protocol of both nodes) are '
-         'compared with the model, at the end both applications call dial(peer). Non-trivial: trace >= 8 numbers; distinct (case, trace) pairs.',
+ 'rule': 'five streams from one seed. (v) LOOP LEVEL, one case per 5 report-level cases (300 in a quick run), TCP twice as often as WebSocket (QUIC: '
+         'thorough tier, `quic` stream): the real `TcpConnection::start` / `WebSocketConnection::start` future over a loopback socket, built by the '
+         'production constructors from a real ProtocolSet (1-4 protocols, optional fallback names, channels of capacity 1-16 owned by the harness, '
+         'some receivers dropped before accept), is never spawned but POLLED BY HAND (under catch_unwind) against a bare yamux peer; script of 2-10 '
+         'operations: a protocol opens a substream through its real ConnectionHandle (remote accepts / refuses / resets / stalls until the timeout / '
+         'never answers), the remote opens a substream under a main, fallback, unadvertised or unknown name (negotiates / stalls / never answers), '
+         "force-close, a protocol drops its handle, a protocol's receiver is dropped, the manager's receiver is dropped, the remote closes (yamux "
+         'close or socket close), RACES: any subset of {a holder force-closes, the remote closes the socket, every handle is dropped, an inbound '
+         "substream arrives} happens before the loop is polled again, so several select! branches are ready and the exit arm is the scheduler's "
+         'choice (the model lists the arms that can win; the observed one must be among them and every one of them reports), any of them with one '
+         'protocol channel full (observed before the channel is drained: has the task finished, has the manager been told); one case in four with a '
+         'substream-open timeout that is never reached, so unanswered negotiations stay pending while the connection is closed around them; after '
+         'every operation (loop polled until nothing is outstanding) compared with coq/C07/Loop.v: return code, events per protocol, manager '
+         'notices, how start() returned (running / Ok / Err / panicked) and the exit arm the real loop took (read from its debug log; the messages '
+         'are extracted from the source, harness/src/gen_c07_msgs.rs). (iv) report-level names: report_connection_established then protocol_codec '
+         'under every name the set offers for negotiation (no panic), report_substream_open under main / fallback / unknown names. (iii) '
+         'back-pressure, one case per 3 report-level cases: 1-4 protocols with real mpsc channels of capacity 1-3 that are drained only when the '
+         'case says so, up to 6 connections = real ProtocolSets whose reports (established / substream-open failure / closed) run as tasks that wait '
+         'for room; accept, loop events, protocol receives k events, protocol exits; after every operation the completed reports, the manager '
+         'channel, the received events, queue lengths and the phase of every connection are compared with the model coq/C07/Block.v (over '
+         'coq/Ts/Report.v). (i) report level, one case per --cases: 2-10 operations on the real ProtocolSet built the way '
+         'TransportHandle::protocol_set builds it (1-5 protocols): kill a protocol receiver / the manager receiver, report_connection_established, '
+         'report_connection_closed, report_substream_open_failure, and report_connection_closed with one protocol channel full (is the manager told '
+         'before the protocols are served?); after every operation the result and everything that arrived on every channel are compared with the '
+         'extracted model. (ii) end to end, one scenario per 12 (quick) / 15 (thorough) report-level cases, 24 in parallel: two real nodes over '
+         'loopback TCP or (one in three) WebSocket through a cuttable proxy, each with 1-3 common user protocols, one user protocol only it has, a '
+         'notification and a request-response protocol; fault script of 1-9 steps: a protocol exits / a handle is dropped (before or after connect, '
+         'or during the handshake: either order is accepted), connect, open a substream (also for a protocol that has exited on the other side, also '
+         'unsupported by the other side, also open-and-exit-at-once), force-close, cut the link, idle expiry (keep-alive 1 s), shut the remote node '
+         'down, re-connect, dial a dead node; after every step (settled: first event, then 200 ms of quiet) the new events of every observer '
+         '(application and every user protocol of both nodes) are compared with the model, at the end both applications call dial(peer). '
+         'Non-trivial: trace >= 8 numbers; distinct (case, trace) pairs.',
  'level_text': 'Proof + translation validation + skeleton tie at STATEMENT level. The select! branches, match arms, calls of the report functions / '
                'try_get_permit / protocol_codec, what is done with each result (`?`, returned, logged, dropped) and the order, are extracted from '
                'tcp, websocket and quic connection.rs on every check (coq/gen/ConnSkel.v) and given a semantics whose meaning is PROVED equal to the '
@@ -67,20 +68,24 @@ ENTRY = {'coq_dir': 'C07',
                'futures pushed to pending_substreams (accept_substream / open_substream and which failures carry the protocol name; the loop-level '
                'stream drives them: named failure, named timeout, anonymous failure, anonymous timeout), the helper functions of the WebRTC loop '
                '(their errors are only logged there), s2n-quic (not compiled). TCP and WebSocket loops are driven at loop level and end to end by '
-               './check; the QUIC loop is tied by its exit table and its statement skeleton, end to end only in the thorough tier (second harness '
-               "build with the quic feature), not at loop level; WebRTC by its tables only. The application's ConnectionClosed for the LAST of "
-               'several connections of a peer is proved on the shared manager model (coq/Mgr) and tied by the C05/C06 streams (real '
-               'TransportManager::next over scripted transports, 1-3 overlapping connections per peer); the C07 end-to-end stream has one connection '
-               'per peer pair. the QUIC loop is repaired and tied by its exit table, its end-to-end stream (400 scenarios) is part of the thorough '
-               'tier only (tools/c07_quic_stream.sh builds the harness a second time with its optional quic feature; no link cut and no remote kill '
-               'there). Thread interleavings between the connection task and the manager loop appear only as event orders, under the atomicity facts '
-               'checked against the code: the peers RwLock is written only by the manager task for `state` (handles write only `addresses` and read '
-               '`state`), no manager handler holds the lock across an await, connection ids and substream ids come from AtomicUsize::fetch_add, '
-               'protocol senders are cloned mpsc senders (no shared map), the connection task is spawned inside the poll of the accept future whose '
-               'completion the manager consumes in the same poll (so Closed can never overtake AcceptDone), the manager never awaits a protocol '
-               'channel (try_send only); the try_get_permit failure path is taken in every quick run by the loop-level stream (about 10% of its '
-               'cases end through it; end to end it stays rare: step 20). A live protocol that never drains its channel holds back the reports of '
-               'every connection (back-pressure by design; assumed not to happen for liveness).',
+               'every ./check; the QUIC loop is tied by its exit table and its statement skeleton in every check and DRIVEN (loop level: real '
+               'QuicConnection::start over a loopback quinn pair, 240 cases; end to end: 400 scenarios) in the thorough tier only '
+               '(tools/c07_quic_stream.sh builds the harness a second time with its optional quic feature), without pending-negotiation (hold) '
+               'cases: on QUIC a pending negotiation fails by itself when the connection is lost and whether the loop reports that failure before it '
+               "ends is the scheduler's choice; an outbound open that times out is not scripted on QUIC (F-C08a, C08's). A suspect end-to-end QUIC "
+               'scenario counts only if it fails again in one of three solo replays (real time, 200 ms settle). WebRTC by its tables only. The '
+               "application's ConnectionClosed for the LAST of several connections of a peer is proved on the shared manager model (coq/Mgr) and "
+               'tied by the C05/C06 streams (real TransportManager::next over scripted transports, 1-3 overlapping connections per peer); the C07 '
+               'end-to-end stream has one connection per peer pair. the QUIC loop is repaired and tied by its exit table, its end-to-end stream (400 '
+               'scenarios) is part of the thorough tier only (tools/c07_quic_stream.sh builds the harness a second time with its optional quic '
+               'feature; no link cut and no remote kill there). Thread interleavings between the connection task and the manager loop appear only as '
+               'event orders, under the atomicity facts checked against the code: the peers RwLock is written only by the manager task for `state` '
+               '(handles write only `addresses` and read `state`), no manager handler holds the lock across an await, connection ids and substream '
+               'ids come from AtomicUsize::fetch_add, protocol senders are cloned mpsc senders (no shared map), the connection task is spawned '
+               'inside the poll of the accept future whose completion the manager consumes in the same poll (so Closed can never overtake '
+               'AcceptDone), the manager never awaits a protocol channel (try_send only); the try_get_permit failure path is taken in every quick '
+               'run by the loop-level stream (about 10% of its cases end through it; end to end it stays rare: step 20). A live protocol that never '
+               'drains its channel holds back the reports of every connection (back-pressure by design; assumed not to happen for liveness).',
  'trusted_base': ['tools/gen_conn_exits.py: regex-level extractor of the exit sites of start / handle_yamux_substream / handle_negotiated_substream '
                   '/ handle_protocol_command (blanked strings and comments, matched braces); it can mis-classify a site only towards a mismatch with '
                   'the model table (then the check fails)',
@@ -91,7 +96,9 @@ ENTRY = {'coq_dir': 'C07',
                   'fixed list of statement shapes, everything else that mentions a function of interest, `?`, return, break, continue, expect, '
                   'unwrap, panic or .await becomes AUnknown/AAwait',
                   'loop-level harness: hand polling with a no-op waker, rounds of yield + 1 ms sleep until no outstanding remote activity and five '
-                  'idle rounds; the exit arm is recognised by the debug message of the arm (list extracted from the source)'],
+                  'idle rounds; the exit arm is recognised by the debug message of the arm (list extracted from the source)',
+                  'quic::verif_loop::verif_pair sets up the two quinn endpoints the way listener.rs / mod.rs do (server config from '
+                  'make_server_config, client config from make_client_config): a copy of set-up code, not of logic under test'],
  'assumptions': ['one connection per peer pair at a time in the end-to-end scenarios (several per peer: C05/C06 streams over the same manager model)',
                  'every live protocol eventually drains its event channel (back-pressure: a report waits for room)',
                  'multistream-select negotiates only names that were offered (then C07_codec_total excludes the expect of protocol_codec)'],
